@@ -212,3 +212,56 @@ Theorem C12_e2e_racing_view_at_pending :
       R st (values (g_o g')) v.
 Proof. intros A B St on_diff R init Hs Hi. exact (e2e_c_view_at_pending on_diff R init Hs Hi). Qed.
 Print Assumptions C12_e2e_racing_view_at_pending.
+
+(* ---- the by-itself hand-over AT ANY MOMENT of an adapter's life (HandOver.v; finding F9) ----
+   An unbatched Head / Tail / Skip may hold diffs of the current burst that it has not handed out
+   yet; the consumer's view is then behind the adapter's by exactly those diffs ([mid_burst]).
+   (1) that relation is an invariant of the poll loop, whatever is queued on the source and on the
+   limit stream, for any adapter with correct step and parameter functions; (2) handing the adapter
+   over (into_parts as repaired: the parked diffs are dropped) starts the next stage from the
+   adapter's own view with nothing parked - at whatever moment; (3) with the parked diffs kept (the
+   code before the repair cc06c71) the statement is false, on a state the poll loop reaches. *)
+From EB Require Import PollLoop HandOver.
+
+Theorem C12_consumer_is_behind_by_the_parked_diffs :
+  forall (A B St : Type) (on_diff : St -> diff A -> outcome (St * list (diff B)))
+         (on_param : St -> nat -> St * option (list (diff B))) (has_param : bool)
+         (R : St -> list A -> list B -> Prop),
+    step_ok on_diff R -> param_ok on_param R ->
+    forall s l v qi iend qp pend lq s' qi' qp' r tr,
+      mid_burst R s l v -> apply_all_ok qi l = Some lq ->
+      poll_u on_diff on_param has_param s qi iend qp pend = Ok (s', qi', qp', r, tr) ->
+      exists l', apply_all_ok qi' l' = Some lq /\
+        match r with
+        | Ready (Some d) => exists v1, apply_all_ok [d] v = Some v1 /\ mid_burst R s' l' v1
+        | _ => mid_burst R s' l' v
+        end.
+Proof. intros A B St on_diff on_param hp R Hs Hp. exact (poll_u_mid_burst on_diff on_param hp R Hs Hp). Qed.
+Print Assumptions C12_consumer_is_behind_by_the_parked_diffs.
+
+Theorem C12_handover_any_moment :
+  forall (A : Type),
+    (forall (s : ustate (B:=A) (St:=head_st A)) l v, mid_burst head_R s l v ->
+       let '(s', vals) := hand_over_u false head_into_parts s in
+       u_ready s' = [] /\ head_R (u_st s') l vals /\ mid_burst head_R s' l vals) /\
+    (forall (s : ustate (B:=A) (St:=tail_st A)) l v, mid_burst tail_R s l v ->
+       let '(s', vals) := hand_over_u false tail_into_parts s in
+       u_ready s' = [] /\ tail_R (u_st s') l vals /\ mid_burst tail_R s' l vals) /\
+    (forall (s : ustate (B:=A) (St:=skip_st A)) l v, mid_burst skip_R s l v ->
+       let '(s', vals) := hand_over_u false skip_into_parts s in
+       u_ready s' = [] /\ skip_R (u_st s') l vals /\ mid_burst skip_R s' l vals).
+Proof.
+  intro A. split; [|split]; intros s l v H.
+  - exact (hand_over_any_moment head_R head_into_parts head_into_parts_view s l v H).
+  - exact (hand_over_any_moment tail_R tail_into_parts tail_into_parts_view s l v H).
+  - exact (hand_over_any_moment skip_R skip_into_parts skip_into_parts_view s l v H).
+Qed.
+Print Assumptions C12_handover_any_moment.
+
+Theorem C12_handover_keeping_parked_diffs_refuted :
+  exists (s : ustate (B:=nat) (St:=head_st nat)) l v,
+    mid_burst head_R s l v /\
+    let '(s', vals) := hand_over_u true head_into_parts s in
+    ~ mid_burst head_R s' l vals.
+Proof. exact hand_over_keeping_ready_refuted. Qed.
+Print Assumptions C12_handover_keeping_parked_diffs_refuted.
